@@ -119,7 +119,15 @@ impl Iterator for Query<'_> {
     type Item = Result<Numeric, Error>;
 
     fn next(&mut self) -> Option<Self::Item> {
-        let node = self.children.next()?;
-        Some(crate::eval::eval(self, node, Default::default()))
+        loop {
+            let node = self.children.next()?;
+
+            // Blanks before, between and after expressions are not results.
+            if *node.value() == Syntax::WHITESPACE && !node.has_children() {
+                continue;
+            }
+
+            return Some(crate::eval::eval(self, node, Default::default()));
+        }
     }
 }
